@@ -4,7 +4,13 @@ coq/Generated/TxsizesConsts.v.
 
   * the size constants of wallet/txsizes/size.go (const block, evaluated);
   * DefaultRelayFeePerKb and the divisor of FeeForSerializeSize (rules.go);
-  * the rounding addend of the witness weight in EstimateVirtualSize;
+  * the terms of EstimateVirtualSize as the function USES them: the per-kind
+    input sizes of `baseSize`, and the whole witness-weight block (the fixed
+    marker+flag weight, the per-kind witness weights - which constant is
+    multiplied with which count -, the compact-size of the witness input
+    count) and its rounding addend;
+  * the script size the wallet's change source (wallet/createtx.go
+    addrMgrWithChangeSource) declares to txauthor for each change address type;
   * varint_counts_change: whether the compact-size of the output count in
     EstimateVirtualSize is taken over the count that includes the change
     output (`outputCount`) or over `len(txOuts)` only;
@@ -65,7 +71,7 @@ def const_block_values(src, path):
 
 
 def func_body(src, name, path):
-    m = re.search(r"^func\s+%s\s*\(" % re.escape(name), src, flags=re.M)
+    m = re.search(r"^func\s+(?:\([^)]*\)\s*)?%s\s*\(" % re.escape(name), src, flags=re.M)
     if not m:
         raise ExtractError("%s: func %s not found" % (path, name))
     i = src.index("{", m.end())
@@ -123,6 +129,12 @@ NAMES = {
 }
 
 
+# waddrmgr address type of the change address -> name in the Generated file
+CHANGE_TYPES = {"PubKeyHash": "pubkeyhash", "NestedWitnessPubKey": "nested_witness_pubkey",
+                "WitnessPubKey": "witness_pubkey", "TaprootPubKey": "taproot_pubkey"}
+CHANGE_ORDER = ["pubkeyhash", "nested_witness_pubkey", "witness_pubkey", "taproot_pubkey"]
+
+
 # ------------------------------------------------------------------ primary path: source shape
 
 def source_facts(repo):
@@ -159,11 +171,73 @@ def source_facts(repo):
         vcc = True
     else:
         raise ExtractError("%s: EstimateVirtualSize: output-count compact-size not recognised: %s" % (p_size, vargs[1]))
-    # the per-kind terms of the estimate, as the model writes them
-    for term in ["numP2PKHIns*RedeemP2PKHInputSize", "numP2WPKHIns*RedeemP2WPKHInputSize",
-                 "numP2TRIns*RedeemP2TRInputSize", "numNestedP2WPKHIns*RedeemNestedP2WPKHInputSize"]:
-        if term not in re.sub(r"\s+", "", base_expr):
-            raise ExtractError("%s: EstimateVirtualSize: term %s not found in baseSize" % (p_size, term))
+    COUNTS = {"numP2PKHIns": "p2pkh", "numP2WPKHIns": "p2wpkh", "numP2TRIns": "p2tr", "numNestedP2WPKHIns": "nested"}
+
+    def value_of(tok, where):
+        if re.fullmatch(r"\d+", tok):
+            return int(tok)
+        if tok in consts:
+            return consts[tok]
+        raise ExtractError("%s: EstimateVirtualSize: %s: %s is neither a literal nor a constant of the const block" % (p_size, where, tok))
+
+    def top_terms(expr):
+        """top-level `+` terms of an expression, white space removed"""
+        expr = re.sub(r"\s+", "", expr)
+        terms, depth, cur = [], 0, ""
+        for ch in expr:
+            if ch == "(":
+                depth += 1
+            elif ch == ")":
+                depth -= 1
+            if ch == "+" and depth == 0:
+                terms.append(cur)
+                cur = ""
+            else:
+                cur += ch
+        terms.append(cur)
+        return terms
+
+    def per_kind(terms, where, kinds):
+        """the `count*Const` terms: kind -> value; returns (map, other terms)"""
+        got, rest = {}, []
+        for t in terms:
+            mm = re.fullmatch(r"(\w+)\*(\w+)", t)
+            if mm and (mm.group(1) in COUNTS or mm.group(2) in COUNTS):
+                cnt, c = (mm.group(1), mm.group(2)) if mm.group(1) in COUNTS else (mm.group(2), mm.group(1))
+                k = COUNTS[cnt]
+                if k in got:
+                    raise ExtractError("%s: EstimateVirtualSize: %s: two terms for %s" % (p_size, where, cnt))
+                got[k] = value_of(c, where)
+            else:
+                rest.append(t)
+        if sorted(got) != sorted(kinds):
+            raise ExtractError("%s: EstimateVirtualSize: %s: per-kind terms found for %r, expected %r" % (p_size, where, sorted(got), sorted(kinds)))
+        return got, rest
+
+    # the per-kind input sizes of baseSize, as the function uses them
+    est_in, rest = per_kind(top_terms(base_expr), "baseSize", ["p2pkh", "p2wpkh", "p2tr", "nested"])
+    rest = [t for t in rest if not t.startswith("wire.VarIntSerializeSize(")]
+    if sorted(rest) != sorted(["8", "SumOutputSerializeSizes(txOuts)", "changeOutputSize"]):
+        raise ExtractError("%s: EstimateVirtualSize: baseSize has unrecognised terms %r" % (p_size, rest))
+    if not re.search(r"changeOutputSize\s*:=\s*0\s*\n\s*if\s+changeScriptSize\s*>\s*0\s*\{\s*changeOutputSize\s*=\s*8\s*\+\s*"
+                     r"wire\.VarIntSerializeSize\(\s*uint64\(changeScriptSize\)\s*\)\s*\+\s*changeScriptSize\b", body):
+        raise ExtractError("%s: EstimateVirtualSize: changeOutputSize block not recognised" % p_size)
+    # the witness-weight block
+    m = re.search(r"witnessWeight\s*:=\s*0\s*\n\s*if\s+([\w+\s]+?)\s*>\s*0\s*\{\s*witnessWeight\s*=(.*?)\n\s*\}", body, flags=re.S)
+    if not m:
+        raise ExtractError("%s: EstimateVirtualSize: witnessWeight block not recognised" % p_size)
+    wnames = sorted(["numP2WPKHIns", "numNestedP2WPKHIns", "numP2TRIns"])
+    if sorted(re.sub(r"\s+", "", m.group(1)).split("+")) != wnames:
+        raise ExtractError("%s: EstimateVirtualSize: witnessWeight guard not recognised: %s" % (p_size, m.group(1)))
+    est_ww, rest = per_kind(top_terms(m.group(2)), "witnessWeight", ["p2wpkh", "p2tr", "nested"])
+    wv = [t for t in rest if t.startswith("wire.VarIntSerializeSize(")]
+    lits = [t for t in rest if not t.startswith("wire.VarIntSerializeSize(")]
+    mi = re.fullmatch(r"wire\.VarIntSerializeSize\(uint64\(([\w+]+)\)\)", wv[0]) if len(wv) == 1 else None
+    if not mi or sorted(mi.group(1).split("+")) != wnames:
+        raise ExtractError("%s: EstimateVirtualSize: witnessWeight compact-size term not recognised: %r" % (p_size, wv))
+    if len(lits) != 1:
+        raise ExtractError("%s: EstimateVirtualSize: witnessWeight fixed part not recognised: %r" % (p_size, lits))
+    est_ww["marker"] = value_of(lits[0], "witnessWeight")
     m = re.search(r"return\s+baseSize\s*\+\s*\(witnessWeight\s*\+\s*(\d+)\)\s*/\s*blockchain\.WitnessScaleFactor", body)
     if not m:
         raise ExtractError("%s: EstimateVirtualSize: return expression not recognised" % p_size)
@@ -193,9 +267,30 @@ def source_facts(repo):
                   r"numNestedP2WPKHIns\s+int\s*,\s*txOuts\s+\[\]\*wire\.TxOut\s*,\s*changeScriptSize\s+int\s*\)", size)
     if not m:
         raise ExtractError("%s: EstimateVirtualSize: parameter list not recognised" % p_size)
-    return dict(consts={n: consts[n] for n in NEED}, wround=wround, relay=relay, divisor=divisor, vcc=vcc,
+    # ---- wallet/createtx.go: what the change source declares per change address type
+    p_create = os.path.join(repo, "wallet", "createtx.go")
+    create = strip_comments(open(p_create).read())
+    cbody = func_body(create, "addrMgrWithChangeSource", p_create)
+    m = re.search(r"switch\s+addrType\s*\{(.*?)\n\s*default\s*:", cbody, flags=re.S)
+    if not m or not re.search(r"ScriptSize\s*:\s*scriptSize\b", cbody) or not re.search(r"var\s+scriptSize\s+int\b", cbody):
+        raise ExtractError("%s: addrMgrWithChangeSource: scriptSize switch / ChangeSource literal not recognised" % p_create)
+    arms = re.findall(r"case\s+waddrmgr\.(\w+)\s*:\s*scriptSize\s*=\s*(?:txsizes\.)?(\w+)\s*(?=case\b|$)", m.group(1).strip(), flags=re.S)
+    change = {}
+    for at, c in arms:
+        if at not in CHANGE_TYPES or at in change:
+            raise ExtractError("%s: addrMgrWithChangeSource: unexpected arm for address type %s" % (p_create, at))
+        if re.fullmatch(r"\d+", c):
+            change[at] = int(c)
+        elif c in consts:
+            change[at] = consts[c]
+        else:
+            raise ExtractError("%s: addrMgrWithChangeSource: %s is not a txsizes constant" % (p_create, c))
+    if sorted(change) != sorted(CHANGE_TYPES) or len(arms) != len(re.findall(r"\bcase\b", m.group(1))):
+        raise ExtractError("%s: addrMgrWithChangeSource: arms recognised for %r, expected exactly %r" % (p_create, sorted(change), sorted(CHANGE_TYPES)))
+    return dict(consts={n: consts[n] for n in NEED}, est_in=est_in, est_ww=est_ww, wround=wround, relay=relay,
+                divisor=divisor, vcc=vcc,
                 vcc_note="EstimateVirtualSize takes the compact-size of the output count over `%s`" % vargs[1],
-                init=init)
+                init=init, change={CHANGE_TYPES[k]: v for k, v in change.items()})
 
 
 # ------------------------------------------------------------------ fallback path: probing the built code
@@ -215,7 +310,7 @@ def _est_model(P, c, nout, out_len, chg):
     base = (8 + _vi(k + t + a + b) + _vi(oc if P["vcc"] else nout) + k * P["C1"] + a * P["C2"] + t * P["C3"] + b * P["C4"]
             + nout * (8 + _vi(out_len) + out_len) + chg_out)
     w = a + b + t
-    ww = 2 + _vi(w) + a * P["W"] + t * P["WT"] + b * P["W"] if w > 0 else 0
+    ww = P["M"] + _vi(w) + a * P["W"] + t * P["WT"] + b * P["WN"] if w > 0 else 0
     return base + (ww + P["R"]) // 4
 
 
@@ -243,7 +338,7 @@ def _run_probe(repo, request):
             shutil.copyfile(os.path.join(repo, "go.sum"), alt[:-4] + ".sum")
             modflag = ["-modfile=" + alt]
         exe = os.path.join(vlib.WORK, "bin", "extract-c07")
-        p = subprocess.run(["go", "build"] + modflag + ["-o", exe, "./cmd/extract-c07"], cwd=vlib.HARNESS,
+        p = subprocess.run(["go", "build"] + modflag + ["-tags", "verif", "-o", exe, "./cmd/extract-c07"], cwd=vlib.HARNESS,
                            env=vlib.GOENV, stdout=subprocess.PIPE, stderr=subprocess.PIPE, text=True, timeout=900)
         if p.returncode != 0:
             raise ExtractError("probe: harness/cmd/extract-c07 does not build against %s: %s" % (repo, (p.stdout + p.stderr)[-1500:]))
@@ -309,16 +404,19 @@ def probe_facts(repo):
     sizes = [0, 1, 2, 10, 122, 999, 1000, 1001, 8005, 100000, 10 ** 7, 3 * 10 ** 9]
     fee_q = [dict(rate=10 ** 9, size=1)] + [dict(rate=r, size=s) for r in rates for s in sizes]
     init_q = [dict(rate=10 ** 6, nout=1, out_len=22, out_val=5000, chg=22)]
-    resp = _run_probe(repo, dict(est=est_q, fee=fee_q, init=init_q))
+    resp = _run_probe(repo, dict(est=est_q, fee=fee_q, init=init_q, change=CHANGE_ORDER))
     E = lambda k: resp["est"][keys[k]]                       # noqa: E731
     consts = resp["consts"]
     for n in NEED + ["DefaultRelayFeePerKb"]:
         if n not in consts:
             raise ExtractError("probe: constant %s not reported" % n)
 
-    P = dict(W=consts["RedeemP2WPKHInputWitnessWeight"], WT=consts["RedeemP2TRInputWitnessWeight"])
+    # the fixed marker+flag weight and the rounding addend are only observable as their sum: the marker is
+    # taken as 2 (what a witness serialization has), the addend is fitted (step 4)
+    P = dict(W=consts["RedeemP2WPKHInputWitnessWeight"], WT=consts["RedeemP2TRInputWitnessWeight"],
+             WN=consts["RedeemP2WPKHInputWitnessWeight"], M=2)
     P["C1"] = E(((2, 0, 0, 0), 0, 0, 22)) - E(((1, 0, 0, 0), 0, 0, 22))
-    for x, cname, wname in [("a", "C2", "W"), ("t", "C3", "WT"), ("b", "C4", "W")]:
+    for x, cname, wname in [("a", "C2", "W"), ("t", "C3", "WT"), ("b", "C4", "WN")]:
         u = unit[x]
         wx = E((tuple(5 * v for v in u), 0, 0, 22)) - E((u, 0, 0, 22))
         if (wx - P[wname]) % 4 != 0:
@@ -367,23 +465,47 @@ def probe_facts(repo):
     # the sizes the function actually uses
     cs["RedeemP2PKHInputSize"], cs["RedeemP2WPKHInputSize"] = P["C1"], P["C2"]
     cs["RedeemP2TRInputSize"], cs["RedeemNestedP2WPKHInputSize"] = P["C3"], P["C4"]
-    return dict(consts=cs, wround=P["R"], relay=consts["DefaultRelayFeePerKb"], divisor=D, vcc=P["vcc"],
+    # 9. what the wallet's change source declares: asked from a real wallet (verif hook VerifChangeSource) for a
+    #    change address of each waddrmgr address type
+    chg = resp.get("change") or []
+    if len(chg) != len(CHANGE_ORDER):
+        raise ExtractError("probe: change source not probed: %r" % (chg,))
+    return dict(consts=cs, est_in=dict(p2pkh=P["C1"], p2wpkh=P["C2"], p2tr=P["C3"], nested=P["C4"]),
+                est_ww=dict(marker=P["M"], p2wpkh=P["W"], p2tr=P["WT"], nested=P["WN"]),
+                wround=P["R"], relay=consts["DefaultRelayFeePerKb"], divisor=D, vcc=P["vcc"],
                 vcc_note="probe: one change output adds %d to EstimateVirtualSize at 252 outputs (%d at 251)" % (d, d251),
-                init=list(hits[0]), nprobes=len(est_q) + len(fee_q) + 1)
+                init=list(hits[0]), change={k: a["declared"] for k, a in zip(CHANGE_ORDER, chg)},
+                nprobes=len(est_q) + len(fee_q) + 1 + len(chg))
 
 
 # ------------------------------------------------------------------ rendering
 
 def render(f, source_line):
     init = f["init"]
-    lines = ["(** GENERATED by lib/extract_c07.py from wallet/txsizes/size.go, wallet/txrules/rules.go and",
-             "    wallet/txauthor/author.go - do not edit; bin/extract rewrites it from the current source. *)",
+    lines = ["(** GENERATED by lib/extract_c07.py from wallet/txsizes/size.go, wallet/txrules/rules.go,",
+             "    wallet/txauthor/author.go and wallet/createtx.go - do not edit; bin/extract rewrites it from the",
+             "    current source. *)",
              "(* facts source: %s *)" % source_line,
              "From Coq Require Import ZArith.",
              "Local Open Scope Z_scope.",
              ""]
     for n in NEED:
         lines.append("Definition %s : Z := %d.  (* txsizes.%s *)" % (NAMES[n], f["consts"][n], n))
+    lines += ["",
+              "(* EstimateVirtualSize as it USES them: baseSize += count * size per input kind *)",
+              "Definition est_in_p2pkh : Z := %d." % f["est_in"]["p2pkh"],
+              "Definition est_in_p2wpkh : Z := %d." % f["est_in"]["p2wpkh"],
+              "Definition est_in_p2tr : Z := %d." % f["est_in"]["p2tr"],
+              "Definition est_in_nested : Z := %d." % f["est_in"]["nested"],
+              "(* witnessWeight = marker + compact-size(#witness inputs) + count * weight per witness input kind *)",
+              "Definition est_ww_marker : Z := %d." % f["est_ww"]["marker"],
+              "Definition est_ww_p2wpkh : Z := %d." % f["est_ww"]["p2wpkh"],
+              "Definition est_ww_p2tr : Z := %d." % f["est_ww"]["p2tr"],
+              "Definition est_ww_nested : Z := %d." % f["est_ww"]["nested"],
+              "",
+              "(* wallet/createtx.go addrMgrWithChangeSource: ChangeSource.ScriptSize per change address type *)"]
+    for k in CHANGE_ORDER:
+        lines.append("Definition change_size_%s : Z := %d." % (k, f["change"][k]))
     lines += ["",
               "(* (witnessWeight + %d) / blockchain.WitnessScaleFactor in EstimateVirtualSize *)" % f["wround"],
               "Definition witness_round_add : Z := %d." % f["wround"],
@@ -413,7 +535,7 @@ def sanitize(msg):
 def main(repo, outdir, write_if_changed):
     try:
         facts = source_facts(repo)
-        source_line = "source (shape of size.go / rules.go / author.go recognised)"
+        source_line = "source (shape of size.go / rules.go / author.go / createtx.go recognised)"
     except (ExtractError, OSError) as e1:
         # the path of the scratch repository is not part of the fact
         why = sanitize(str(e1).replace(repo.rstrip("/") + "/", ""))
